@@ -31,7 +31,19 @@ Inductive draw := Choice (i : nat) | Uniform (x : Q).
 (* int(np.random.uniform(...)): truncation toward zero *)
 Definition qtrunc (x : Q) : Q := inject_Z (if Qle_bool 0 x then Qfloor x else Qceiling x).
 
-(* one pivot: from the available segments when there are some, else anywhere in the bounds.  Returns pivot, new available, rest of stream *)
+(* integer mode.  Original code: int(x).  Repaired code: the truncated value is kept when it lies in the chosen segment [s, e],
+   otherwise floor(x), then ceil(x), is taken if it does; if the segment holds no whole number the truncated value stays. *)
+Definition in_closed (sg : seg) (t : Q) : bool := Qle_bool (fst sg) t && Qle_bool t (snd sg).
+Definition int_pivot (repaired : bool) (sg : seg) (x : Q) : Q :=
+  let t := qtrunc x in
+  if negb repaired then t
+  else if in_closed sg t then t
+  else let f := inject_Z (Qfloor x) in
+       if in_closed sg f then f
+       else let c := inject_Z (Qceiling x) in if in_closed sg c then c else t.
+
+(* one pivot: from the available segments when there are some, else anywhere in the bounds.  Returns pivot, new available, rest of stream.
+   [repaired] governs both repairs (zone removal and integer rule). *)
 Definition draw_pivot (repaired int_mode : bool) (dist binf bsup : Q) (avail : list seg) (st : list draw)
   : option (Q * list seg * list draw) :=
   match avail with
@@ -41,7 +53,7 @@ Definition draw_pivot (repaired int_mode : bool) (dist binf bsup : Q) (avail : l
           end
   | _ => match st with
          | Choice i :: Uniform x :: st' =>
-           let p := if int_mode then qtrunc x else x in
+           let p := if int_mode then int_pivot repaired (nth i avail (0, 0)) x else x in
            Some (p, remove_pivot repaired p dist avail, st')
          | _ => None
          end
@@ -77,6 +89,10 @@ Definition sample_once (repaired int_mode : bool) (dist binf bsup : Q) (gt : lis
 Definition in_seg (x : Q) (sg : seg) : Prop := fst sg <= x /\ x < snd sg.
 Definition available (x : Q) (segs : list seg) : Prop := exists sg, In sg segs /\ in_seg x sg.
 Definition far (dist p x : Q) : Prop := x < p - dist \/ p + dist <= x.
+(* "at least dist apart" (closed on both sides) *)
+Definition apart (dist p x : Q) : Prop := x <= p - dist \/ p + dist <= x.
+(* the chosen segment holds a whole number *)
+Definition has_int (sg : seg) : Prop := exists z : Z, fst sg <= inject_Z z /\ inject_Z z <= snd sg.
 
 (* removal of the zones of a list of pivots, in order, from the whole bounds *)
 Definition avail_after (repaired : bool) (dist binf bsup : Q) (ps : list Q) : list seg :=
@@ -92,7 +108,7 @@ Fixpoint contract (repaired int_mode : bool) (dist binf bsup : Q) (k : nat) (ava
     | [], Uniform x :: Choice a :: st' => (binf <= x /\ x < bsup) /\ contract repaired int_mode dist binf bsup k' [] st'
     | _ :: _, Choice i :: Uniform x :: Choice a :: st' =>
         (exists sg, nth_error avail i = Some sg /\ in_seg x sg) /\
-        contract repaired int_mode dist binf bsup k' (remove_pivot repaired (if int_mode then qtrunc x else x) dist avail) st'
+        contract repaired int_mode dist binf bsup k' (remove_pivot repaired (if int_mode then int_pivot repaired (nth i avail (0, 0)) x else x) dist avail) st'
     | _, _ => False
     end
   end.
